@@ -241,11 +241,17 @@ fn gglwe_infos_shape<T: GGLWEInfos>(what: &str, t: &T, cols_out: Option<usize>) 
     }
 }
 
+/// GGSW-like types expose n, dnum (rows), size and - uncompressed only - rank = cols_out - 1 of the buffer. cols_in is
+/// not observable (for compressed types `rank` is a stored scalar, not a buffer dimension); it is a constant factor of
+/// both the capacity and the demand, so the inequalities are evaluated without it.
 fn ggsw_infos_shape<T: GGSWInfos>(what: &str, t: &T, compressed: bool) -> Shape {
-    let r = t.rank().as_usize() + 1;
     Shape {
         what: what.to_string(),
-        dims: vec![t.n().as_usize(), t.dnum().as_usize(), r, if compressed { 1 } else { r }],
+        dims: if compressed {
+            vec![t.n().as_usize(), t.dnum().as_usize()]
+        } else {
+            vec![t.n().as_usize(), t.dnum().as_usize(), t.rank().as_usize() + 1]
+        },
         size: t.size(),
         max_size: None,
         len: None,
@@ -274,7 +280,9 @@ fn probe_ggsw<T: GGSWInfos>(t: &T) {
 macro_rules! common {
     (uniform) => {
         fn fill(&mut self, seed: u64) {
-            self.fill_uniform(64, &mut src(seed));
+            // log_bound 63 takes the per-coefficient path (the 64 path would also overwrite allocation padding,
+            // which PartialEq compares but the stream does not carry)
+            self.fill_uniform(63, &mut src(seed));
         }
         fn native_eq(&self, o: &Self) -> Option<bool> {
             Some(self == o)
@@ -466,13 +474,10 @@ impl Subject for GLWEPublicKey<Vec<u8>> {
     fn fill(&mut self, seed: u64) {
         // GLWEPublicKey has no FillUniform; its ciphertext is reachable through GLWEToMut
         let mut g = GLWEToMut::to_mut(self);
-        g.fill_uniform(64, &mut src(seed));
+        g.fill_uniform(63, &mut src(seed));
     }
     fn native_eq(&self, o: &Self) -> Option<bool> {
         Some(self == o)
-    }
-    fn clone_opt(&self) -> Option<Self> {
-        Some(self.clone())
     }
     fn set_meta(&mut self, v: u64) {
         *self.dist_mut() = if v == 0 {
@@ -518,10 +523,6 @@ macro_rules! gglwe_like {
             fn shapes(&self, out: &mut Vec<Shape>) {
                 let g = GGLWEToRef::to_ref(self);
                 out.push(mz("data", g.data()));
-                // the wrapper's own accessors must agree with the buffer's dimensions
-                let w = gglwe_infos_shape("infos", self, None);
-                let d = out[0].clone();
-                assert!(w.dims == d.dims && w.size == d.size, "GGLWEInfos {:?} disagree with MatZnx {:?}", w, d);
             }
             fn probe(&self) {
                 probe_gglwe(self);
@@ -544,7 +545,10 @@ macro_rules! gglwe_like {
                 $meta
             }
             fn shapes(&self, out: &mut Vec<Shape>) {
-                out.push(gglwe_infos_shape("data", self, Some(1)));
+                // the GGLWECompressed view reports the buffer's own rows / cols_in (a wrapper's rank_in() may be
+                // derived from the stored rank instead, e.g. GLWETensorKeyCompressed)
+                let g = GGLWECompressedToRef::to_ref(self);
+                out.push(gglwe_infos_shape("data", &g, Some(1)));
             }
             fn probe(&self) {
                 probe_gglwe(self);
@@ -813,6 +817,9 @@ impl Subject for BDDKey<Vec<u8>, CGGI> {
     const CAP: &'static [Dim] = &[Dim::Size, Dim::Dnum];
     const STREAM_FILL: bool = true;
     fn alloc(p: &P) -> Self {
+        // the circuit-bootstrapping key inside is not admissible at rank 0 (no tensor sub-key); BDDKey has no accessor
+        // that would reveal it
+        assert!(p.rank >= 1, "BDDKey needs rank >= 1");
         let l = BDDKeyLayout {
             cbt_layout: cbk_layout(p),
             ks_glwe_layout: (p.opt == 1).then(|| GLWESwitchingKeyLayout {
